@@ -5,6 +5,7 @@ from __future__ import annotations
 from typing import TYPE_CHECKING, Any
 
 from hypergraph.runners._shared.gate_execution import execute_route
+from hypergraph.runners.async_.superstep import get_concurrency_limiter
 
 if TYPE_CHECKING:
     from hypergraph.nodes.gate import RouteNode
@@ -15,7 +16,9 @@ class AsyncRouteNodeExecutor:
     """Executes RouteNode in async context.
 
     The routing function is always sync (validated at decoration time).
-    This async wrapper exists for consistency with other async executors.
+    It is a node function all the same: it takes a permit of the shared
+    concurrency limiter while it runs, like function nodes and interrupt
+    handlers do (max_concurrency bounds node executions, gates included).
     """
 
     async def __call__(
@@ -24,4 +27,8 @@ class AsyncRouteNodeExecutor:
         state: GraphState,
         inputs: dict[str, Any],
     ) -> dict[str, Any]:
+        semaphore = get_concurrency_limiter()
+        if semaphore:
+            async with semaphore:
+                return execute_route(node, state, inputs)
         return execute_route(node, state, inputs)
